@@ -15,15 +15,19 @@ def oracles_():
     return [oracles.RoundTrip(), comps_doc.RoundTripX(), comps_doc.RoundTripMeta(), comps_doc.RoundTripTypes(), comps_doc.LybCollisionRT(), comps_doc.SingleNodeX(), comps_doc.MetaOrderX()]
 
 MANIFEST = {
-    "text": "Coq theorems: (XML) the text printer/lexer pair is an exact round trip for every string of accepted characters of any "
-            "length (C01_xml_text_roundtrip*), including CR and, in attribute values, TAB and LF, which the printer writes as "
-            "character references since 6fdbff2 / 47fa563; (JSON) json_print_string / lyjson_string round trip "
-            "(C01_json_string_roundtrip*); (LYB) for every well-bracketed script of sibling starts/stops and writes of any size "
-            "the chunked writer's output is read back by the reader as the same payloads, parametric in LYB_SIZE_MAX "
-            "(C01_lyb_chunk_roundtrip), the writer fails only through its LOGINT branches, and the printed hash sequence of a "
+    "text": "Coq theorems: (XML) the text printer/lexer pair is an exact round trip for every string of characters the lexer accepts ([lexable] "
+            "= what ly_getutf8 accepts, since d2cc93f exactly the yang-chars: _unicode variants), any length, any legal "
+            "delimiter (C01_xml_text_roundtrip*), including CR and, in attribute values, TAB and LF, which the printer writes as "
+            "character references since 6fdbff2 / 47fa563; (JSON) json_print_string / lyjson_string round trip for lexable byte strings (C01_json_string_roundtrip*; the "
+            "model-side well-formedness [bytes_ok] is needed: _nonbyte_refuted); (LYB) for every well-bracketed script of sibling starts/stops and writes of any size on which the chunked "
+            "writer succeeds, its output is read back by the reader as the same payloads (C01_lyb_chunk_roundtrip, for the "
+            "scraped constants; the underlying lemma is parametric in LYB_SIZE_MAX etc.), on well-bracketed scripts the "
+            "writer fails only through its LOGINT branch (C01_lyb_write_fails_only_logint; reachable, and the planned "
+            "inner-chunk bound false, for small parameters: C01_lyb_logint_reachable_small, "
+            "C01_lyb_inner_chunks_bounded_refuted_small), and the printed hash sequence of a "
             "sibling identifies it among its siblings at ANY collision depth (C01_lyb_hashseq_identifies: reader model = "
-            "lyb_parse_schema_hash comparing every collision id, cached or generated; depth-4 Example from the collision "
-            "corpus; totality of hashing is refuted = finding lyb-hash-collision). corpus/lyb_collisions.txt: sibling-name "
+            "lyb_parse_schema_hash comparing every collision id, cached or generated; C01_lyb_hashseq_depth4_example from the collision corpus; totality of hashing is refuted: "
+            "C01_lyb_hash_total_refuted = listed finding lyb-hash-collision). corpus/lyb_collisions.txt: sibling-name "
             "families colliding to depth 1..6 and 8 (birthday search with the Python model of lyb_generate_hash, re-checked "
             "at load time, every name run on every collision id against the library and the extracted model by LybHashGen, "
             "the families as sibling sets by LybSiblings, and as modules / instances through lyd_print / lyd_parse by the "
@@ -31,15 +35,16 @@ MANIFEST = {
             "against the static C functions incl. byte-identical LYB chunk streams around the 65535 boundary (T2). "
             "DOCUMENT LEVEL (slice doc, Tree subset: one data module, no anydata / opaque / union): xml_print = transcription of "
             "printer_xml.c (shrink mode; namespace-declaration stack, metadata attributes, any node selection); "
-            "C01_xml_doc_roundtrip / _sel / _id: the libyang-side reader (XML element grammar + the model of lyxml_parse_value + "
+            "C01_xml_doc_roundtrip / _sel / _id / _checked (hypotheses: side tables tabs_okb, forest Canon, data DocN "
+            "lexable - all with boolean checkers): the libyang-side reader (XML element grammar + the model of lyxml_parse_value + "
             "schema-directed conversion) applied to xml_print gives back exactly the selected part of every canonical forest, default "
             "flags cleared (a document does not carry them) - also when two modules share a prefix (numbered prefixes of "
             "xml_print_ns since 91f0178, modelled by uniq_prefix); JSON: "
             "json_print = transcription of printer_json.c WITH its state (level, level_printed, open arrays, first_leaflist), "
             "json_doc = rendering of the RFC 7951 value; C01_json_print_is_rfc7951: for EVERY node selection the state machine "
             "prints exactly json_doc of the selected part on canonical forests (pre-order sids) - since f592167 also where the "
-            "selection cuts through a leaf-list that carries metadata (trim mode); C01_json_doc_roundtrip / _sel / _checked: "
-            "json_parse (json_print sel f) = the selected part of f without flags. Tie: libyang's XML and JSON output "
+            "selection cuts through a leaf-list that carries metadata (trim mode); C01_json_doc_roundtrip / _sel / _checked (tabs_okb, parents_ltb, Canon, JDocN SV_ly): json_parse (json_print "
+            "sel f) = the selected part of f without flags. Tie: libyang's XML and JSON output "
             "(explicit, report-all, trim, keep-empty; shrink) for generated modules / instances with metadata and empty-typed "
             "leaf-lists is byte-identical to the extracted printers, and the extracted readers applied to LIBYANG's bytes return "
             "libyang's dump; the executable hypotheses of the theorems are evaluated on every case. Whole documents for what the "
@@ -68,8 +73,9 @@ MANIFEST = {
             "top-level nodes and anydata nested in anydata, in single-root data, notifications, RPCs and replies. MetaOrderX: the "
             "same instance with the metadata of every node in canonical and in permuted order (with-defaults default attribute "
             "2nd, 3rd ...) as XML and JSON must parse to the same tree. SingleNodeX: one node printed alone. Fixed: "
-            "json-nested-any-module-lost (58cec3d), xml-wd-default-attr-not-first (e9866d8). Listed and open: json-opaq-array-attr (attributes of "
-            "opaque array instances in JSON), json-opaq-unknown-meta, with replays and proposed patches; lyb-union-member-reresolved (the "
+            "json-nested-any-module-lost (58cec3d), xml-wd-default-attr-not-first (e9866d8). Listed and open: json-opaq-array-attr (attributes of opaque array instances in JSON), json-opaq-unknown-meta, "
+            "xml-same-prefix-value-clash (values are printed with the modules' own prefixes), with replays; of the shared "
+            "oracle RoundTrip: wd-explicit-state-dflt, wd-leaflist-partial-default, lyb-hash-collision; lyb-union-member-reresolved (the "
             "LYB printer re-resolved the member of a union value without validation) is fixed by affc70d.",
     "technique": "Coq proof over hand-written model + differential correspondence (extracted OCaml vs C) + round-trip oracle",
 }
